@@ -15,12 +15,53 @@ func init() { register("C11", c11) }
 func c11(r *core.Run) {
 	r.Expl = "C11 (results independent of parallelism; queries end): decides (1) termination shape of the work queue: every send on DBWorkManager.workloadChan happens on a channel whose capacity is derived from the number of items about to be sent (or from a goroutine), because its consumers are started only after the producer returned — a fixed capacity filled synchronously blocks forever once there are more workloads than capacity; the queue is closed on every exit of the producer; (2) worker protocol: wg.Add precedes the spawns, every worker goroutine defers wg.Done first, each workload leads to at most one message on the result channel on every path and exactly one on the normal path, the result channel is closed only after all ExecuteWorkerReadJobs calls and the live-query wait; (3) fan-in commutativity: the aggregation goroutine updates its state only by Merge / Stats.Add / counters — no last-writer-wins assignment of an item-derived value; (4) no shared mutable state between workers: readBlocksAndEvaluate and the worker closure do not assign fields of the shared work manager or query, and the instrumented condition closures (evaluated concurrently by all workers) write neither to the key nor to captured variables. NOT decided: equality of results across worker counts and schedules as executed; absence of every deadlock (e.g. the error path on which the aggregator stops draining)."
 	r.Floor = 12
-	r.Rules = append(r.Rules, "queue-filled-before-consumers (P16)", "worker-protocol (P1/P2)", "accumulator-discipline (P15)", "no-shared-writes (P8)")
+	r.Rules = append(r.Rules, "queue-filled-before-consumers (P16)", "worker-protocol (P1/P2)", "accumulator-discipline (P15)", "no-shared-writes (P8)", "no-reentrant-lock")
 	p := r.Prog("cgo")
 	c11Queue(r, p)
 	c11Workers(r, p)
 	c11FanIn(r, p)
 	c11Shared(r, p)
+	c11Relock(r, p)
+}
+
+// c11Relock: a query ends only if no goroutine of it can block for good; the statistics of a running query are shared
+// between the aggregation routine (writer) and the keepalive callback (reader) under a non-reentrant RWMutex.
+func c11Relock(r *core.Run, p *core.Prog) {
+	const rule = "no-reentrant-lock"
+	rels := []string{"pkg/goDB/engine", "pkg/types/workload", pkgGoDB}
+	if r.Thorough() {
+		rels = nil
+		for _, fn := range p.AllFuncs() {
+			rel := core.RelPkg(fn.Pkg.PkgPath)
+			if strings.HasPrefix(rel, "examples/") {
+				continue
+			}
+			seen := false
+			for _, x := range rels {
+				if x == rel {
+					seen = true
+				}
+			}
+			if !seen {
+				rels = append(rels, rel)
+			}
+		}
+	}
+	nFn, nLocks := 0, 0
+	for _, rel := range rels {
+		for _, fn := range p.Funcs(rel) {
+			nFn++
+			for _, c := range core.Calls(fn.Decl.Body, true) {
+				if _, m := core.MethodCall(fn.Info(), c); m == "RLock" || m == "Lock" {
+					nLocks++
+				}
+			}
+			if hz := relockHazardsIn(p, fn); len(hz) > 0 {
+				r.Check(rule, fn.Where(), p.Rel(fn.Decl.Pos()), false, strings.Join(hz, "; "))
+			}
+		}
+	}
+	r.Check(rule, "lock-regions-scanned", "-", nLocks >= 3, fmt.Sprintf("%d functions, %d lock acquisitions scanned for a second acquisition of the same lock inside the held region (directly, or through LogValue / String / … of a value handed to a logger)", nFn, nLocks))
 }
 
 func c11Queue(r *core.Run, p *core.Prog) {
